@@ -545,7 +545,8 @@ def _user_text(bits):
     parts = []
     gcc = []
     if bits[1]:
-        gcc.append('options = ["-DUSER_GCC", "-I", "/user/inc"]\n')
+        # (detached spellings twice: the tokens "-I" and "-D" repeat, and every one of them must survive the merge)
+        gcc.append('options = ["-DUSER_GCC", "-I", "/user/inc", "-I", "/user/inc2", "-D", "U2", "-D", "U3"]\n')
     tail = []
     if bits[2]:
         tail.append('[[compiler.gcc.parser]]\nflags = ["-fuser"]\naction = "append_const"\ndest = "modes"\nconst = "user"\n')
